@@ -103,14 +103,38 @@ def run(ctx):
                 bad.append(("index-modulus", "shard index modulus is not shards.len() (%s)" % fmt_leaves(B), None))
         # callers route by the command's context id
         st = F.fn("handlers::store::handle")
-        gs = one(st, r"ShardManager::get_shard$")
-        Lc = fmt_leaves(st.origins(gs.args[1]))
-        inst.sites.append("store routes by: %s" % Lc)
-        if "context_id" not in Lc:
-            bad.append(("route-key", "STORE routes by something else than the context id (%s)" % Lc, None))
         snd = one(st, r"mpsc::(bounded::)?Sender::send$")
-        if not any(l[0] == "call" and norm_path(l[1]).endswith("get_shard") for l in st.origins(snd.args[0])):
-            bad.append(("send-other-shard", "STORE is not sent to the shard returned by get_shard", None))
+        routers = [l for l in st.origins(snd.args[0]) if l[0] == "call" and "ShardManager::" in norm_path(l[1])]
+        if not routers:
+            raise AnchorMissing("the ShardManager call that yields the shard STORE sends to")
+        for l in routers:
+            rc = st.call_at(l[2])
+            rname = norm_path(l[1])
+            inst.sites.append("store routes through %s" % rname.split("::")[-1])
+            if rname.endswith("ShardManager::get_shard"):
+                Lc = fmt_leaves(st.origins(rc.args[1]))
+                inst.sites.append("store routes by: %s" % Lc)
+                if "context_id" not in Lc:
+                    bad.append(("route-key", "STORE routes by something else than the context id (%s)" % Lc, None))
+                continue
+            # another routing function: whatever it hashes must be the context id alone (reads look a context up with get_shard(context_id))
+            if not F.has(rname):
+                bad.append(("route-function", "STORE chooses its shard through %s, not through get_shard" % rname, None))
+                continue
+            R = F.fn_exact(rname)
+            hashed = [c_ for c_ in R.calls if not c_.cleanup and re.search(r"Hash>::hash$|hash::Hash::hash$|::hash_one$", c_.nname)]
+            extra = set()
+            for hc in hashed:
+                for l2 in R.origins(hc.args[0] if not hc.nname.endswith("hash_one") else hc.args[1]):
+                    if l2[0] == "param":
+                        extra.add(l2[1])
+            ctx_arg = None
+            for idx_, a_ in enumerate(rc.args[1:], start=2):
+                if "context_id" in fmt_leaves(st.origins(a_)):
+                    ctx_arg = R.local_name(idx_)
+            others = sorted(x for x in extra if x != ctx_arg)
+            if others or ctx_arg is None or not (R.find_calls(r"ShardManager::get_shard$") or ctx_arg in extra):
+                bad.append(("route-key", "STORE routes through %s, which hashes %s: events of one context land on different shards while reads and REPLAY order assume one shard per context" % (rname.split("::")[-1], sorted(extra) or "?"), None))
         inst.detail = "bodies/leaves reachable from get_shard: %d" % len(seen)
         return bad
     ctx.run("C12.a", "K4 EFFECT + K7", "ShardManager::get_shard", "routing is a deterministic function of the context id and the shard count", a)
